@@ -199,6 +199,9 @@ func runWorld(c *driver.Ctx, name string, w *sk.World, sample bool) *sk.Result {
 		if ir.Late {
 			c.Observe("shared_instances_attached_late", 1)
 		}
+		if ir.BeyondBuf {
+			c.Observe("shared_instances_attached_late_beyond_replay_buffer", 1)
+		}
 		if ir.NoReport && ir.Spec.Script.Reports() > 0 {
 			c.Observe("instances_whose_host_is_no_status_reporter", 1)
 		}
@@ -247,6 +250,7 @@ func run(c *driver.Ctx) {
 	nB := int64(c.N(320, 4800))   // lifetimes of sampled longer sequential scripts
 	nC := int64(c.N(320, 6000))   // lifetimes with a component failing in Start
 	nD := int64(c.N(2400, 48000)) // lifetimes of concurrent scripts
+	nE := int64(c.N(160, 3200))   // lifetimes of shared receivers reporting 6..12 times inside Start
 	var g int64
 
 	// directed reproducer of the registered finding C11-a (see known_findings.d/C11.json): a shared
@@ -297,6 +301,27 @@ func run(c *driver.Ctx) {
 			w.Specs = append(w.Specs, sp)
 		}
 		runWorld(c, fmt.Sprintf("B%d", b), w, b == 0)
+	}
+
+	// Part E — late attachment beyond the replay buffer, made frequent: shared 2–3-signal receivers that report
+	// 6..12 times inside Start (before the second/third signal instance is started), the last report cycling
+	// through all eight statuses; a few reports after start / inside Shutdown / after shutdown follow.
+	for e := int64(0); e < nE; e, g = e+1, g+1 {
+		if !c.Mine(g) {
+			continue
+		}
+		rng := c.CaseRand(g)
+		w := &sk.World{NWatchers: 1 + rng.Intn(2), WatcherPos: rng.Intn(2)}
+		for i := 0; i < 48; i++ {
+			seq := randSeq(rng, 6+rng.Intn(7), rng.Intn(2) == 0)
+			seq[len(seq)-1] = sk.Alphabet[(int(e)+i)%8]
+			sp := sk.Spec{Kind: sk.KShared, Signals: 2 + rng.Intn(2)}
+			sp.Script = randSplit(rng, randSeq(rng, rng.Intn(4), false))
+			sp.Script.Start = [][]sk.S{seq}
+			sp.Script.StopErr = rng.Intn(10) == 0
+			w.Specs = append(w.Specs, sp)
+		}
+		runWorld(c, fmt.Sprintf("E%d", e), w, false)
 	}
 
 	// Part C — one component fails in Start: the service reports PermanentError for it, later components
